@@ -812,7 +812,7 @@ func ruleTableZero(c *Ctx, rule string, fns []*ssa.Function) {
 					case *ssa.Slice:
 						size = d.High
 					}
-					if m, ok := size.(*ssa.BinOp); ok && m.Op == token.MUL {
+					if m, ok := size.(*ssa.BinOp); ok && m.Op == token.MUL && m.X != m.Y {
 						cands[ia.X] = true
 					}
 				}
